@@ -72,9 +72,9 @@ Proof. exact C06_function_partial_lemma. Qed.
 Print Assumptions C06_function_partial.
 
 (* ---- class: the annotated attributes are the parameters (return entry folded in), in order ---- *)
-Theorem C06_class_attr_names : forall pt i ec cn bs ds ww text i2 s i',
-    emit_class pt i ec cn bs ds ww (Ok (text, i2)) = Ok (s, i') ->
-    map (fun x => fst (fst x)) (class_attrs_of s) = od_keys (ir_params i2).
+Theorem C06_class_attr_names : forall pt i ec cn bs ds ww tds s i',
+    emit_class pt i ec cn bs ds ww tds = Ok (s, i') ->
+    map (fun x => fst (fst x)) (class_attrs_of s) = od_keys (ir_params (class_fold_returns i)).
 Proof. exact emit_class_attr_names. Qed.
 Print Assumptions C06_class_attr_names.
 
@@ -90,7 +90,7 @@ Print Assumptions C06_argparse_options.
 
 Example C06_nonvacuous :
   guard_C06_function w6_ir_ok = true
-  /\ exists s i2, emit_function [] w6_ir_ok (Some (L "f")) (Some (L "self")) true true (Ok ([], w6_ir_ok)) = Ok (s, i2)
+  /\ exists s i2, emit_function [] w6_ir_ok (Some (L "f")) (Some (L "self")) true true (Ok []) = Ok (s, i2)
                   /\ wf_python s = true.
 Proof. exact C06_nonvacuous_lemma. Qed.
 Print Assumptions C06_nonvacuous.
